@@ -193,6 +193,7 @@ def analyse(task):
         if p.exc is not None:
             if 'noexc' in forms:
                 res['obligations'] += 1
+                _symseq[0] = p.notes.get('seq2') if task.get('symmult') else None
                 site = repo_site(p.exc)
                 # a concrete witness of the path condition
                 r, m = ask(list(p.pc), 'pc')
@@ -554,6 +555,8 @@ def replay_cex(cex):
     seq = [(c, list(a)) for c, a in d['seq']]
     if 'inst' not in d:
         return False, 'no concrete instance in counterexample'
+    if any(isinstance(a, str) for _, args in seq for a in args):
+        return False, 'counterexample carries an unresolved symbolic argument'
     I = replay.inst_from_data(d['inst'])
     Ifile = I
     if 'twopl' not in flags and I.lprefs is not None:
